@@ -655,6 +655,134 @@ def desugar_adaptor_next(rec, prog, stats):
     return False
 
 
+TAKE_NEXT = "<core::iter::Take<I> as core::iter::Iterator>::next"
+
+
+def desugar_repeat_with_take(rec, prog, stats):
+    """`for v in core::iter::repeat_with(f).take(n)`: Take<RepeatWith<F>>::next is `if remaining == 0 { None } else { remaining -= 1; Some(f()) }`,
+    i.e. the loop `for _ in 0..n { let v = f(); .. }`.  The adaptor is replaced by that range and a call of the closure.  Applied when the adaptor value is
+    built once from a closure literal and reaches its single `next` call through moves, into_iter and re-borrows only."""
+    for bi, blk in enumerate(rec["blocks"]):
+        t = blk["term"]
+        if t["k"] != "call" or t.get("target") is None or len(t.get("args", [])) != 1 or t["dest"]["proj"]:
+            continue
+        if (t.get("resolved") or t.get("callee")) != TAKE_NEXT:
+            continue
+        a = t["args"][0]
+        if a["k"] != "move" or a["place"]["proj"]:
+            continue
+        drop_stmts = []
+        cur = a["place"]["local"]
+        base = None
+        for _ in range(4):
+            d = _single_def(rec, cur)
+            if d is None or d[0] != "stmt" or d[1] != bi or d[3]["rv"]["k"] != "ref" or _uses_of(rec, cur) != 2:
+                break
+            pl = d[3]["rv"]["place"]
+            drop_stmts.append(d[3])
+            if not pl["proj"]:
+                base = pl["local"]
+                break
+            if [x["k"] for x in pl["proj"]] != ["deref"]:
+                break
+            cur = pl["local"]
+        if base is None or rec["locals"][base].get("path") != "core::iter::Take":
+            continue
+        if _uses_of(rec, base) != 2 + sum(1 for bk in rec["blocks"] if bk["term"]["k"] == "drop" and bk["term"]["place"]["local"] == base and not bk["term"]["place"]["proj"]):
+            continue                    # the adaptor is used elsewhere too
+        chain = []
+        cur = base
+        ctor = None
+        for _ in range(6):
+            d = _single_def(rec, cur)
+            if d is None:
+                break
+            if d[0] == "stmt" and d[3]["rv"]["k"] == "use" and d[3]["rv"]["op"]["k"] == "move" and not d[3]["rv"]["op"]["place"]["proj"]:
+                chain.append(d)
+                cur = d[3]["rv"]["op"]["place"]["local"]
+                continue
+            if d[0] == "call":
+                cc = d[3].get("resolved") or d[3].get("callee")
+                if cc.endswith("::into_iter") and len(d[3]["args"]) == 1 and d[3]["args"][0]["k"] == "move" and not d[3]["args"][0]["place"]["proj"]:
+                    chain.append(d)
+                    cur = d[3]["args"][0]["place"]["local"]
+                    continue
+                if cc == "core::iter::Iterator::take" and len(d[3]["args"]) == 2:
+                    ctor = d
+            break
+        if ctor is None:
+            continue
+        rw_op, n_op = ctor[3]["args"]
+        if not (rw_op["k"] == "move" and not rw_op["place"]["proj"]) or n_op["k"] not in ("move", "copy", "const"):
+            continue
+        rw = rw_op["place"]["local"]
+        if rec["locals"][rw].get("path") != "core::iter::RepeatWith":
+            continue
+        d0 = _single_def(rec, rw)
+        if d0 is None or d0[0] != "call" or (d0[3].get("resolved") or d0[3].get("callee")) != "core::iter::repeat_with" or len(d0[3]["args"]) != 1:
+            continue
+        f_op = d0[3]["args"][0]
+        if not (f_op["k"] == "move" and not f_op["place"]["proj"]):
+            continue
+        fl = f_op["place"]["local"]
+        fty = rec["locals"][fl]
+        if fty.get("k") != "closure" or fty["path"] not in prog.fns:
+            continue
+        cl = prog.fns[fty["path"]].rec
+        item_ty = cl["locals"][0]
+        dty = rec["locals"][t["dest"]["local"]]
+        line = t.get("line")
+        usz = {"k": "uint", "bits": 64, "name": "usize"}
+        isz = {"k": "int", "bits": 64, "name": "isize"}
+        rty = {"k": "adt", "path": "core::ops::Range", "args": [usz], "s": "core::ops::Range<usize>"}
+        n = len(rec["locals"])
+        rec["locals"].extend([rty, rty, {"k": "ref", "mut": True, "to": rty}, {"k": "adt", "path": "core::option::Option", "args": [usz], "s": "core::option::Option<usize>"},
+                              isz, {"k": "ref", "mut": True, "to": fty}, {"k": "tuple", "elems": []}, item_ty])
+        rng, itl, r, x, dx, cr, tup, y = range(n, n + 8)
+        # the constructors: repeat_with disappears, take(n) becomes (0..n).into_iter()
+        rec["blocks"][d0[1]]["term"] = {"k": "goto", "target": d0[3]["target"]}
+        cb = rec["blocks"][ctor[1]]
+        cb["stmts"] = list(cb["stmts"]) + [{"k": "assign", "place": {"local": rng, "proj": []},
+                                            "rv": {"k": "aggregate", "agg": "adt", "path": "core::ops::Range", "variant": 0, "vname": "Range", "args": [usz], "is_enum": False,
+                                                   "ops": [{"k": "const", "ty": usz, "bits": 0, "val": 0, "size": 8}, n_op]}, "line": line}]
+        cb["term"] = {"k": "call", "callee": "core::iter::IntoIterator::into_iter", "resolved": "<I as core::iter::IntoIterator>::into_iter", "cargs": [rty], "rargs": [rty],
+                      "args": [{"k": "move", "place": {"local": rng, "proj": []}}], "dest": {"local": itl, "proj": []}, "target": ctor[3]["target"], "line": line}
+        for d in chain:
+            if d[0] == "stmt":
+                rec["blocks"][d[1]]["stmts"] = [z for z in rec["blocks"][d[1]]["stmts"] if z is not d[3]]
+            else:
+                rec["blocks"][d[1]]["term"] = {"k": "goto", "target": d[3]["target"]}
+        # drops of the adaptor value become no-ops
+        for bk in rec["blocks"]:
+            tt = bk["term"]
+            if tt["k"] == "drop" and tt["place"]["local"] in (base, rw) and not tt["place"]["proj"]:
+                bk["term"] = {"k": "goto", "target": tt["target"]}
+        blk["stmts"] = [z for z in blk["stmts"] if not any(z is w for w in drop_stmts)]
+        nb = len(rec["blocks"])
+        SW, NONE, SOME, HIT, UNR = nb, nb + 1, nb + 2, nb + 3, nb + 4
+        blk["stmts"] = list(blk["stmts"]) + [{"k": "assign", "place": {"local": r, "proj": []}, "rv": {"k": "ref", "mut": True, "place": {"local": itl, "proj": []}}, "line": line}]
+        blk["term"] = {"k": "call", "callee": "core::iter::Iterator::next", "resolved": NEXT_RESOLVE["core::ops::Range"], "cargs": [rty], "rargs": [usz],
+                       "args": [{"k": "move", "place": {"local": r, "proj": []}}], "dest": {"local": x, "proj": []}, "target": SW, "line": line}
+        rec["blocks"].append({"stmts": [{"k": "assign", "place": {"local": dx, "proj": []}, "rv": {"k": "discr", "place": {"local": x, "proj": []}}, "line": line}],
+                              "term": {"k": "switch", "discr": {"k": "move", "place": {"local": dx, "proj": []}}, "dty": isz, "arms": [[0, NONE], [1, SOME]], "otherwise": UNR, "line": line}})
+        rec["blocks"].append({"stmts": [{"k": "assign", "place": copy.deepcopy(t["dest"]),
+                                         "rv": {"k": "aggregate", "agg": "adt", "path": "core::option::Option", "variant": 0, "vname": "None", "args": dty.get("args", []), "is_enum": True, "ops": []},
+                                         "line": line}], "term": {"k": "goto", "target": t["target"]}})
+        rec["blocks"].append({"stmts": [{"k": "assign", "place": {"local": cr, "proj": []}, "rv": {"k": "ref", "mut": True, "place": {"local": fl, "proj": []}}, "line": line},
+                                        {"k": "assign", "place": {"local": tup, "proj": []}, "rv": {"k": "aggregate", "agg": "tuple", "ops": []}, "line": line}],
+                              "term": {"k": "call", "callee": "core::ops::FnMut::call_mut", "resolved": None, "cargs": [fty, {"k": "tuple", "elems": []}], "rargs": [],
+                                       "args": [{"k": "move", "place": {"local": cr, "proj": []}}, {"k": "move", "place": {"local": tup, "proj": []}}], "dest": {"local": y, "proj": []},
+                                       "target": HIT, "line": line}})
+        rec["blocks"].append({"stmts": [{"k": "assign", "place": copy.deepcopy(t["dest"]),
+                                         "rv": {"k": "aggregate", "agg": "adt", "path": "core::option::Option", "variant": 1, "vname": "Some", "args": dty.get("args", []), "is_enum": True,
+                                                "ops": [{"k": "move", "place": {"local": y, "proj": []}}]}, "line": line}],
+                              "term": {"k": "goto", "target": t["target"]}})
+        rec["blocks"].append({"stmts": [], "term": {"k": "unreachable"}})
+        stats.setdefault(rec["path"], []).append("desugar:repeat_with.take::next")
+        return True
+    return False
+
+
 ENUM_NEXT = "<core::iter::Enumerate<I> as core::iter::Iterator>::next"
 
 
@@ -2375,7 +2503,7 @@ def apply(prog):
                         touched.add(p)
     for p, rec in recs.items():
         for _ in range(6):
-            if not (desugar(rec, prog, stats) | desugar_enumerate_over_adaptor(rec, prog, stats) | desugar_adaptor_next(rec, prog, stats)):
+            if not (desugar(rec, prog, stats) | desugar_enumerate_over_adaptor(rec, prog, stats) | desugar_adaptor_next(rec, prog, stats) | desugar_repeat_with_take(rec, prog, stats)):
                 break
             touched.add(p)
         rec.pop("_expand_filter", None)
